@@ -57,11 +57,19 @@ let rec split_bar acc = function
 
 let handle (toks : string list) : (string * string * string) option =
   match toks with
-  | ("calls32" | "callsw" | "callsn" | "callsne" | "callsd") as op :: rest ->
+  | ("calls32" | "callsw" | "callsn" | "callsne" | "callsd" | "callsde" | "calls32h" | "calls32t" | "calls32i" | "calls32o") as op0 :: rest ->
+    (* build variants of the verif32 driver: h = hooks only (no timing), t = timing only (no hooks), i / o = only the IN / OUT hook *)
+    let variant = if String.length op0 = 8 then String.sub op0 7 1 else "" in
+    let op = if variant = "" then op0 else "calls32" in
+    let keep_ev e = (match e with
+        | EIn _ -> variant <> "t" && variant <> "o"
+        | EOut _ -> variant <> "t" && variant <> "i"
+        | _ -> true) in
+    let timing = variant <> "h" in
     let (a, k, nslots, lib_of) = (match op with
         | "calls32" -> (abi_lp32, ILong, 4, fun s -> s mod 2)
         | "callsw" -> (abi_wide, IInt, 4, fun s -> s mod 2)
-        | "callsd" -> (abi_host, ILong, 64, fun s -> s mod 2)
+        | "callsd" | "callsde" -> (abi_host, ILong, 64, fun s -> s mod 2)
         | _ -> (abi_host, ILong, 64, fun _ -> 0)) in
     let cin v = (match to_sbx a k v with Some r -> r | None -> failwith "no abi map") in
     let cout v = (match to_app a k v with Some r -> r | None -> failwith "no abi map") in
@@ -75,21 +83,21 @@ let handle (toks : string list) : (string * string * string) option =
         | ["r"; s; f] -> step (WRegister (ni (int_of_string s * 8 + int_of_string f), ni (int_of_string s), zi (int_of_string f)))
         | ["u"; s; f] -> step (WUnregister (ni (int_of_string s * 8 + int_of_string f)))
         | _ -> failwith "bad prefix op") prefix;
-    if not !ok then Some ("PREFIX-ABORT", "PREFIX-ABORT", op ^ ":prefix-abort")
+    if not !ok then Some ("PREFIX-ABORT", "PREFIX-ABORT", op0 ^ ":prefix-abort")
     else begin
       let (tree, _) = parse_tree tree_toks in
       let slot_of = world_slot_of !w in
       let odd n = (int_of_nat n) mod 2 = 1 in
       let t0 = { cur = ni 99; lastcb = O } in
       let (((evs, ab), t'), recs) = run slot_of odd odd cin cout false true t0 tree in
-      let m = String.concat " " (show_evs true lib_of evs) ^ " | ab=" ^ (if ab then "1" else "0") ^
-              " cur=" ^ (if int_of_nat t'.cur = 99 then "ok" else "BAD") ^ " | " ^ show_recs recs in
+      let m = String.concat " " (show_evs true lib_of (List.filter keep_ev evs)) ^ " | ab=" ^ (if ab then "1" else "0") ^
+              " cur=" ^ (if int_of_nat t'.cur = 99 then "ok" else "BAD") ^ " | " ^ (if timing then show_recs recs else "notiming") in
       let (sevs, sab) = spec slot_of odd odd cin cout true (ni 99) tree in
-      let s = String.concat " " (show_evs false lib_of sevs) ^ " | ab=" ^ (if sab then "1" else "0") ^
-              " cur=ok | " ^ show_recs (closes sevs) in
+      let s = String.concat " " (show_evs false lib_of (List.filter keep_ev sevs)) ^ " | ab=" ^ (if sab then "1" else "0") ^
+              " cur=ok | " ^ (if timing then show_recs (closes sevs) else "notiming") in
       let depth = let rec d (Node (_, _, _, _, _, _, ks)) = 1 + List.fold_left (fun a k -> max a (d k)) 0 ks in d tree in
       let nab = List.length (List.filter (fun e -> match e with ETrap _ -> true | _ -> false) evs) in
-      Some (m, s, op ^ ":depth" ^ string_of_int depth ^ (if ab then ":abort" else ":ok") ^ (if nab > 0 then ":trap" else ""))
+      Some (m, s, op0 ^ ":depth" ^ string_of_int depth ^ (if ab then ":abort" else ":ok") ^ (if nab > 0 then ":trap" else ""))
     end
   | _ -> None
 
